@@ -6,6 +6,9 @@ CONSTANTS
   SkipSet = {"sync", "jump", "unknown", "unknown0", "unknownL", "byte"}
   HdrSet = {"bbox", "filets"}
   RefPolicy = "first"
+  MaskSet = {{"n", "w", "r"}}
+  TypeResets = TRUE
+  SkipUndecoded = TRUE
   FillOnly = TRUE
   BulkN = 15010
   RoleLimit = 250
